@@ -88,3 +88,89 @@ package types
 //@                            v.consensusState.Root == as(cobj, ConsensusState).Root && v.contractAddr == self.ContractAddress && str(v.commitment) == enc64(sequence) &&
 //@                            str(v.proofKey) == keccak(keyrepr(cleanPt(sourceChain, destChain)) ++ lpad(bigbytes(104), 32)) &&
 //@                            v.ethProof == as(jsondec(str(proof)), Proof))
+//@
+//@ // ---- C18 (header acceptance)
+//@ // Keys inside the client store: header index "ethHeaderIndex/<hash><height>", root index "ethRootMain/<root><height>"
+//@ // (the hash prints as 0x + 64 hex digits, so hash and decimal height do not run into each other: A-KEYS)
+//@ subkeyfn EthHeaderIndexKey(hash, height) = ethIdx(hash: str, height: u64)
+//@ subkeyfn EthRootMainKey(root, height) = ethRoot(root: str, height: u64)
+//@
+//@ // A-CRYPTO: keccak256 of the RLP encoding
+//@ spec rlphash(x: obj): str
+//@ func rlpHash(x) (h)
+//@   props C18
+//@   trusts def: str(h) == rlphash(pack(x))
+//@
+//@ // the go-ethereum form of a header: a function of the header (ethOf); its fields when the two decimal strings parse,
+//@ // the zero header when they do not
+//@ spec ethOf(hp: obj): obj
+//@ spec ethHash(hp: obj): str = rlphash(ethOf(hp))
+//@ func (Header).ToEthHeader() (result)
+//@   props C18
+//@   let ok = bignumok(self.Difficulty) && bignumok(self.BaseFee)
+//@   trusts fn:      pack(result) == ethOf(pack(self))
+//@   ensures fields: ok ==> str(result.ParentHash) == hash32(str(self.ParentHash)) && str(result.UncleHash) == hash32(str(self.UncleHash)) && result.GasLimit == self.GasLimit &&
+//@                          result.GasUsed == self.GasUsed && result.Time == self.Time && result.Difficulty == bigparse(self.Difficulty) && result.BaseFee == bigparse(self.BaseFee) &&
+//@                          result.Number == bigof(self.Height.RevisionHeight) && result.Difficulty != nil && result.BaseFee != nil
+//@   ensures zero:   !ok ==> str(result.ParentHash) == zeroarr(32) && str(result.UncleHash) == zeroarr(32) && result.GasLimit == 0 && result.GasUsed == 0 && result.Time == 0 &&
+//@                          result.Difficulty == nil && result.BaseFee == nil && result.Number == nil
+//@
+//@ // gas limit: within parent/1024 of the parent's (exclusive) and at least 5000 (parent limit below 2^63)
+//@ func VerifyGaslimit(parentGasLimit, headerGasLimit) (err)
+//@   props C18
+//@   let d = ite(parentGasLimit >=u headerGasLimit, parentGasLimit - headerGasLimit, headerGasLimit - parentGasLimit)
+//@   requires parent.bound: parentGasLimit <=u 0x7fffffffffffffff
+//@   requires header.bound: headerGasLimit <=u 0x7fffffffffffffff
+//@   ensures def: err == nil <==> d <u parentGasLimit / 1024 && headerGasLimit >=u 5000
+//@
+//@ // the EIP-1559 base fee prescribed by the parent (big-integer formula, not modelled: a function of the parent)
+//@ spec calcBaseFee(pp: obj): obj
+//@ func CalcBaseFee(parent) (result)
+//@   props C18
+//@   trusts def: result == calcBaseFee(pack(parent)) && result != nil
+//@
+//@ // EIP-1559: gas limit within bounds of the parent's, base fee present and equal to the prescribed one
+//@ func VerifyEip1559Header(parent, header) (err)
+//@   props C18
+//@   let pok = bignumok(parent.Difficulty) && bignumok(parent.BaseFee)
+//@   let hok = bignumok(header.Difficulty) && bignumok(header.BaseFee)
+//@   let pgl = ite(pok, parent.GasLimit, 0)
+//@   let hgl = ite(hok, header.GasLimit, 0)
+//@   let d   = ite(pgl >=u hgl, pgl - hgl, hgl - pgl)
+//@   requires parent.bound: parent.GasLimit <=u 0x7fffffffffffffff
+//@   requires header.bound: header.GasLimit <=u 0x7fffffffffffffff
+//@   ensures def: err == nil <==> d <u pgl / 1024 && hgl >=u 5000 && hok && bigcmp(bigparse(header.BaseFee), calcBaseFee(pack(parent))) == 0
+//@
+//@ // A-ETHASH: the proof-of-work seal (vendored ethash; temp dirs, caches and goroutines are outside the model)
+//@ spec powOk(hp: obj): bool
+//@ func verifyCascadingFields(header) (err)
+//@   props C18
+//@   trusts def: err == nil <==> powOk(pack(header))
+//@
+//@ // verifyHeader: accepted iff the header is not stored yet, its parent (by parent hash, one block below) is stored and
+//@ // hashes to the parent hash, the timestamp is later than the parent's and at most 15 s ahead of the block time, gas
+//@ // limit and base fee follow EIP-1559 from the parent, the difficulty is the prescribed one and the seal is valid;
+//@ // nothing is written
+//@ func verifyHeader(ctx, cdc, store, clientState, header) (err)
+//@   props C18
+//@   let c      = clientOf(store)
+//@   let hp     = pack(header)
+//@   let number = header.Height.RevisionHeight
+//@   let hok    = bignumok(header.Difficulty) && bignumok(header.BaseFee)
+//@   let phash  = ite(hok, hash32(str(header.ParentHash)), zeroarr(32))
+//@   let known  = present(tibc[ethIdx(c, ethHash(hp), number)])
+//@   let po     = tibc[ethIdx(c, phash, number - 1)]
+//@   let pobj   = anydec(val(po))
+//@   let P      = as(pobj, Header)
+//@   let pok    = bignumok(P.Difficulty) && bignumok(P.BaseFee)
+//@   let stored = present(po) && anyok(val(po)) && isa(pobj, Header) && ethHash(pack(P)) == phash
+//@   let timeOk = header.Time <=u unix(now() + dur(15000000000)) && header.Time >u P.Time
+//@   let pgl    = ite(pok, P.GasLimit, 0)
+//@   let hgl    = ite(hok, header.GasLimit, 0)
+//@   let gd     = ite(pgl >=u hgl, pgl - hgl, hgl - pgl)
+//@   let eip    = gd <u pgl / 1024 && hgl >=u 5000 && hok && bigcmp(bigparse(header.BaseFee), calcBaseFee(pack(P))) == 0
+//@   let diffOk = bigcmp(calcdiff(header.Time, pack(P), bigsub(bigof(9700000), bigof(1))), bigparse(header.Difficulty)) == 0
+//@   requires gas.bound: header.GasLimit <=u 0x7fffffffffffffff
+//@   requires stored.bound: forall k: key :: present(tibc[k]) && is_ethIdx(k) && isa(anydec(val(tibc[k])), Header) ==> as(anydec(val(tibc[k])), Header).GasLimit <=u 0x7fffffffffffffff
+//@   ensures sound:    err == nil ==> !known && stored && timeOk && eip && diffOk && powOk(hp)
+//@   ensures complete: !known && stored && timeOk && eip && diffOk && powOk(hp) ==> err == nil
